@@ -12,24 +12,32 @@ parse), FrameRT (frame header, block loop technique, epilogue).
   2  readNbSeq / seqTail / prepare_of_parts   `Block.prepare` = literals stage, nbSeq field, tables + sequences (code copied verbatim; the
                                   equality is checked by unfolding)
   3  seq_header_roundtrip         the three encodings of the number of sequences
-  4  buildSeqTable_choice, inverts_choice, seqHead_fields    the modes byte, predefined and RLE tables on both sides
-  5  seqTail_serialized           tables + sequences stage on what the writer wrote
+  4  buildSeqTable_choice, inverts_choice, seqHead_fields    the modes byte; predefined, RLE, described (FSE_writeNCount / FSE_readNCount:
+                                  Lemmas/NCountRT.lean) and repeated tables on both sides; TableOK / TablesOK = what a described table must satisfy
+  5  seqTail_serialized           tables + sequences stage on what the writer wrote; EntIs / EntMatch = the decoder carries the tables of the
+                                  encoder's previous resolved decisions (`BlockEnc.nextTables`)
   6  litSection_roundtrip         literals section in any of the three modes (raw, RLE, Huffman with direct tree description)
   7  prepare_serialized           `Block.prepare` on `serializeBlockBody`
   8-9 validFrom_sizes, validFrom_congr, storeAll_pos          what validity of a parse implies (lengths, nbSeq, positive histories)
-  10 block_roundtrip              MAIN: decodeBlock (serializeBlockBody parse) appends the block content; histories stay in lock step
-  11 blocks_loop2, decompressFrame_serialized2, frame_roundtrip_compressed    whole frames of raw / RLE / compressed blocks
+  10 block_roundtrip              MAIN: decodeBlock (serializeBlockBody parse) appends the block content; repeat-offset histories and carried
+                                  sequence tables stay in lock step (block_roundtrip_basic: one block on its own, no set_repeat)
+  11 blocks_loop2, decompressFrame_serialized2, frame_roundtrip_compressed    whole frames of raw / RLE / compressed blocks; `Tiles2` threads the
+                                  repeat-offset history AND the previous table decisions
   12 codesOK_predefined           with predefined tables the only hypothesis on codes is `rawOffset + 3 < 2^29`
 
-OUT OF SCOPE (stated, not silently dropped): `set_compressed` sequence tables (the table DESCRIPTION round trip FSE_writeNCount <->
-FSE_readNCount is not proved yet; the bit stream for such tables is: `SeqRT.inverts_build`), `set_repeat` tables, FSE-compressed
-Huffman tree descriptions and treeless literals.
+All four sequence-table modes are covered: `set_basic`, `set_rle`, `set_compressed` (description round trip: `NCountRT.ncount_roundtrip`;
+bit stream: `SeqRT.inverts_build`; the normalised counts are a DECISION, FSE_normalizeCount is not modelled: any distribution that
+`TableOK` accepts) and `set_repeat` (the table of the previous compressed block with sequences OF THE SAME FRAME).
+OUT OF SCOPE (stated, not silently dropped): `set_repeat` of a DICTIONARY's tables in the first block with sequences (the frame theorems
+start with `prev = none`, i.e. the writer is not offered the dictionary's tables: a sound restriction of the encoder's choices),
+FSE-compressed Huffman tree descriptions and treeless literals.
 -/
 import ZstdVerif.Model.BlockEnc
 import ZstdVerif.Lemmas.LitRT
 import ZstdVerif.Lemmas.SeqRT
 import ZstdVerif.Lemmas.ExecRT
 import ZstdVerif.Lemmas.FrameRT
+import ZstdVerif.Lemmas.NCountRT
 set_option linter.unusedSimpArgs false
 namespace ZstdVerif.BlockRT
 open ZstdVerif ZstdVerif.Gen ZstdVerif.FSE ZstdVerif.SeqEnc ZstdVerif.LitEnc ZstdVerif.BlockEnc ZstdVerif.Rep
@@ -265,40 +273,107 @@ theorem seq_header_roundtrip (n : Nat) (hn : n < LONGNBSEQ + 65536) (src : Bytes
 
 /-! ### 4. the table modes -/
 
-/-- the decoding table ZSTD_buildSeqTable installs for a mode choice: the constant default table, or the one-cell RLE table -/
+/-- the decoding table ZSTD_buildSeqTable installs for a RESOLVED mode choice: the constant default table, the one-cell RLE table, or
+the table ZSTD_buildFSETable builds from the described distribution.  (`.repeat` does not occur in a resolved choice, see `TableOK`;
+it is given the default table like `SeqTableChoice.ctable` does.) -/
 def dtab (dflt : List SeqCell) (base bits : List Nat) : SeqTableChoice → Array SeqCell
   | .predefined => dflt.toArray
   | .rle sym => FSE.rleSeqTable sym base bits
+  | .fse norm log => FSE.buildSeqTable norm log base bits
+  | .repeat => dflt.toArray
 
 /-- ... and its log -/
 def dlog (dfltLog : Nat) : SeqTableChoice → Nat
   | .predefined => dfltLog
   | .rle _ => 0
+  | .fse _ log => log
+  | .repeat => dfltLog
 
-/-- the codes a mode choice can express: all codes of the default alphabet (up to `dmax`), or the one RLE symbol -/
+/-- the codes a RESOLVED mode choice can express: all codes of the default alphabet (up to `dmax`), the one RLE symbol, or the symbols
+of the described alphabet whose normalised count is not 0 -/
 def okOf (dmax : Nat) : SeqTableChoice → Nat → Prop
   | .predefined => (· ≤ dmax)
   | .rle sym => (· = sym)
+  | .fse norm _ => fun s => s < norm.size ∧ norm[s]! ≠ 0
+  | .repeat => fun _ => False
+
+instance (dmax : Nat) (c : SeqTableChoice) (s : Nat) : Decidable (okOf dmax c s) := by
+  cases c <;> (simp only [okOf]; infer_instance)
+
+/-- what a RESOLVED mode choice must satisfy for the decoder to accept its description and to invert its table (`maxSym`, `maxLog` =
+the limits ZSTD_buildSeqTable is called with: MaxLL / LLFSELog, MaxOff / OffFSELog, MaxML / MLFSELog).  `set_compressed`: a normalised
+distribution (`FSE.NormOK`: counts ≥ -1 adding up to `2^L`) with `FSE_MIN_TABLELOG = 5 ≤ L ≤ maxLog`, an alphabet within the limit
+whose last symbol is present (FSE_writeNCount is handed `maxSymbolValue` = the last symbol with a non-zero count), and the two facts on
+the spreading of symbols that `tools/ent_fse.py` / `zvdriver seqenc` check on every table (`SeqRT.inverts_build`).  `set_rle`,
+`set_basic`: nothing here (the bound on the RLE symbol follows from `CodesOK`).  `set_repeat` is not a resolved choice. -/
+def TableOK (maxSym maxLog : Nat) : SeqTableChoice → Prop
+  | .predefined => True
+  | .rle _ => True
+  | .fse norm L => NormOK norm L ∧ 5 ≤ L ∧ L ≤ maxLog ∧ norm.size ≤ maxSym + 1 ∧ norm[norm.size - 1]! ≠ 0 ∧
+      spreadOK (spreadEnc norm L) norm L = true ∧ spreadEnc norm L = spread norm L
+  | .repeat => False
+
+instance (maxSym maxLog : Nat) (c : SeqTableChoice) : Decidable (TableOK maxSym maxLog c) := by
+  cases c <;> (simp only [TableOK]; infer_instance)
+
+/-- `TableOK` for the three resolved decisions of a block, with the limits of ZSTD_decodeSeqHeaders -/
+def TablesOK (t : Tables) : Prop :=
+  TableOK MaxLL LLFSELog t.ll ∧ TableOK MaxOff OffFSELog t.of ∧ TableOK MaxML MLFSELog t.ml
+
+instance (t : Tables) : Decidable (TablesOK t) := by unfold TablesOK; infer_instance
+
+theorem tablesOK_default : TablesOK {} := ⟨trivial, trivial, trivial⟩
+
+def isRepeat : SeqTableChoice → Bool
+  | .repeat => true
+  | _ => false
+
+/-- one of the three decisions is `set_repeat` -/
+def usesRepeat (t : Tables) : Bool := isRepeat t.ll || isRepeat t.of || isRepeat t.ml
+
+theorem resolve_of_not_isRepeat (p c : SeqTableChoice) (h : isRepeat c = false) : c.resolve p = c := by
+  cases c <;> first | rfl | cases h
+
+/-- decisions without `set_repeat` are their own resolution, whatever came before: for them the statements below are the statements
+about predefined / RLE / described tables alone -/
+theorem resolve_of_not_usesRepeat (p t : Tables) (h : usesRepeat t = false) : Tables.resolve p t = t := by
+  obtain ⟨a, b, c⟩ := t
+  simp only [usesRepeat, Bool.or_eq_false_iff] at h
+  simp only [Tables.resolve, resolve_of_not_isRepeat _ _ h.1.1, resolve_of_not_isRepeat _ _ h.1.2, resolve_of_not_isRepeat _ _ h.2]
 
 theorem ctable_log (norm : List Int) (log : Nat) (c : SeqTableChoice) : (c.ctable norm log).tableLog = dlog log c := by
   cases c <;> rfl
 
-theorem descr_size (c : SeqTableChoice) : c.descr.size = c.mode := by
+/-- size of what ZSTD_buildCTable writes: nothing for `set_basic` / `set_repeat`, the symbol for `set_rle`, the FSE_writeNCount bytes
+for `set_compressed` -/
+theorem descr_size (c : SeqTableChoice) : c.descr.size =
+    match c with
+    | .predefined => 0
+    | .rle _ => 1
+    | .fse norm log => (NCountW.writeNCount norm log).size
+    | .repeat => 0 := by
   cases c
   · rfl
   · exact LitRT.le_size _ _
+  · rfl
+  · rfl
 
-/-- ZSTD_buildSeqTable on what ZSTD_buildCTable wrote for the mode: nothing for `set_basic`, the symbol byte for `set_rle` -/
-theorem buildSeqTable_choice (c : SeqTableChoice) (src : Bytes) (ip iend maxSym maxLog : Nat) (base bits : List Nat)
+/-- ZSTD_buildSeqTable on what ZSTD_buildCTable wrote for the mode: nothing for `set_basic`, the symbol byte for `set_rle`, the
+FSE_writeNCount description for `set_compressed` (FSE_readNCount reads it back whatever follows it inside the block:
+`NCountRT.ncount_roundtrip`), nothing for `set_repeat` - then the decoder must hold valid tables (`fv`) and hands out the one it holds
+(`prev`, `prevLog`), which is the table of the previous resolved choice `pc`.  The result is the table of the RESOLVED choice. -/
+theorem buildSeqTable_choice (c pc : SeqTableChoice) (src : Bytes) (ip iend maxSym maxLog : Nat) (base bits : List Nat)
     (dflt : List SeqCell) (dfltLog : Nat) (prev : Array SeqCell) (prevLog : Nat) (fv : Bool)
-    (h : Holds src ip c.descr) (hend : ip + c.descr.size ≤ iend) (hsym : ∀ s, c = .rle s → s ≤ maxSym) (hmax : maxSym < 256) :
+    (h : Holds src ip c.descr) (hend : ip + c.descr.size ≤ iend) (hsym : ∀ s, c = .rle s → s ≤ maxSym) (hmax : maxSym < 256)
+    (hT : TableOK maxSym maxLog (c.resolve pc)) (hlog : maxLog ≤ 12)
+    (hrep : c = .repeat → fv = true ∧ prev = dtab dflt base bits pc ∧ prevLog = dlog dfltLog pc) :
     Block.buildSeqTable c.mode src ip iend maxSym maxLog base bits dflt dfltLog prev prevLog fv
-      = .ok (dtab dflt base bits c, dlog dfltLog c, c.descr.size) := by
+      = .ok (dtab dflt base bits (c.resolve pc), dlog dfltLog (c.resolve pc), c.descr.size) := by
   cases c with
   | predefined =>
     unfold Block.buildSeqTable
     simp only [SeqTableChoice.mode, set_basic, bind, Except.bind, pure, Except.pure, Nat.reduceBEq, Bool.false_eq_true, ↓reduceIte,
-      BEq.rfl, dtab, dlog, SeqTableChoice.descr, ByteArray.size_empty]
+      BEq.rfl, dtab, dlog, SeqTableChoice.descr, SeqTableChoice.resolve, ByteArray.size_empty]
   | rle sym =>
     have hs := hsym sym rfl
     have hsz : (SeqTableChoice.rle sym).descr.size = 1 := LitRT.le_size _ _
@@ -311,47 +386,113 @@ theorem buildSeqTable_choice (c : SeqTableChoice) (src : Bytes) (ip iend maxSym 
     have c2 : ¬ sym > maxSym := by omega
     unfold Block.buildSeqTable
     simp only [SeqTableChoice.mode, set_rle, bind, Except.bind, pure, Except.pure, throw, throwThe, MonadExceptOf.throw, BEq.rfl,
-      ↓reduceIte, c1, c2, e0, dtab, dlog, hsz]
+      ↓reduceIte, c1, c2, e0, dtab, dlog, hsz, SeqTableChoice.resolve]
+  | fse norm L =>
+    obtain ⟨hN, h5, hL, hsz, hlast, -, -⟩ : TableOK maxSym maxLog (.fse norm L) := hT
+    have hd : (SeqTableChoice.fse norm L).descr = NCountW.writeNCount norm L := rfl
+    rw [hd] at h hend ⊢
+    have hrd := NCountRT.ncount_roundtrip norm L hN h5 (by omega) hlast maxSym hsz src ip (iend - ip) (by omega) h.extract
+    have c1 : ¬ L > maxLog := by omega
+    unfold Block.buildSeqTable
+    simp only [SeqTableChoice.mode, set_compressed, bind, Except.bind, pure, Except.pure, throw, throwThe, MonadExceptOf.throw,
+      Nat.reduceBEq, Bool.false_eq_true, ↓reduceIte, hrd, c1, dtab, dlog, SeqTableChoice.resolve]
+  | «repeat» =>
+    obtain ⟨e1, e2, e3⟩ := hrep rfl
+    subst e1 e2 e3
+    unfold Block.buildSeqTable
+    simp only [SeqTableChoice.mode, set_repeat, bind, Except.bind, pure, Except.pure, throw, throwThe, MonadExceptOf.throw,
+      Nat.reduceBEq, Bool.false_eq_true, ↓reduceIte, BEq.rfl, Bool.not_true, SeqTableChoice.descr, SeqTableChoice.resolve,
+      ByteArray.size_empty]
 
-theorem inverts_choice (c : SeqTableChoice) :
+/-- the compression table of a resolved choice is inverted by its decoding table on the codes it can express (predefined:
+`SeqRT.inverts_default`, RLE: `SeqRT.inverts_rle`, described: `SeqRT.inverts_build`) -/
+theorem inverts_choice (c : SeqTableChoice) {maxSym maxLog : Nat} (hT : TableOK maxSym maxLog c) (hlog : maxLog ≤ 14) :
     Inverts (c.ctable LL_defaultNorm LL_DEFAULTNORMLOG) (dtab LL_defaultDTable LL_base LL_bits c) LL_base LL_bits (okOf MaxLL c) ∧
     Inverts (c.ctable OF_defaultNorm OF_DEFAULTNORMLOG) (dtab OF_defaultDTable OF_base OF_bits c) OF_base OF_bits (okOf DefaultMaxOff c) ∧
     Inverts (c.ctable ML_defaultNorm ML_DEFAULTNORMLOG) (dtab ML_defaultDTable ML_base ML_bits c) ML_base ML_bits (okOf MaxML c) := by
   cases c with
   | predefined => exact SeqRT.inverts_default
   | rle sym => exact ⟨SeqRT.inverts_rle sym _ _, SeqRT.inverts_rle sym _ _, SeqRT.inverts_rle sym _ _⟩
+  | fse norm L =>
+    obtain ⟨hN, -, hL, -, -, hS, hE⟩ := hT
+    have hL14 : L ≤ 14 := by omega
+    exact ⟨SeqRT.inverts_build hN hL14 hS hE _ _, SeqRT.inverts_build hN hL14 hS hE _ _, SeqRT.inverts_build hN hL14 hS hE _ _⟩
+  | «repeat» => exact hT.elim
 
 /-- the compression-modes byte: the three 2-bit fields come back, the reserved field is 0 -/
 theorem seqHead_fields (t : Tables) :
     seqHead t < 256 ∧ seqHead t &&& 3 = 0 ∧ seqHead t >>> 6 = t.ll.mode ∧ (seqHead t >>> 4) &&& 3 = t.of.mode ∧
       (seqHead t >>> 2) &&& 3 = t.ml.mode := by
   obtain ⟨a, b, c⟩ := t
-  cases a <;> cases b <;> cases c <;> (simp only [seqHead, SeqTableChoice.mode, set_basic, set_rle]; decide)
+  cases a <;> cases b <;> cases c <;>
+    (simp only [seqHead, SeqTableChoice.mode, set_basic, set_rle, set_compressed, set_repeat]; decide)
 
 /-! ### 5. tables and sequences: `seqTail` on what the writer wrote behind the nbSeq field -/
 
-/-- the part of `seqSection` behind the nbSeq field -/
-def seqRest (t : Tables) (seqs : List SeqIn) : ByteArray :=
-  le (seqHead t) 1 ++ (t.ll.descr ++ (t.of.descr ++ (t.ml.descr ++ encodeSeqBytes (ctLL t) (ctOF t) (ctML t) seqs)))
+/-- the part of `seqSection` behind the nbSeq field (`prev` = the resolved decisions of the previous block with sequences) -/
+def seqRest (t : Tables) (seqs : List SeqIn) (prev : Tables := {}) : ByteArray :=
+  le (seqHead t) 1 ++ (t.ll.descr ++ (t.of.descr ++ (t.ml.descr ++ encodeSeqBytes (ctLL t prev) (ctOF t prev) (ctML t prev) seqs)))
 
-/-- every sequence uses codes the chosen tables can express: with a predefined table any code of the default alphabet (LL ≤ 35,
-OF ≤ 28 i.e. `offBase < 2^29`, ML ≤ 52), with an RLE table exactly its symbol -/
+/-- every sequence uses codes the chosen (RESOLVED) tables can express: with a predefined table any code of the default alphabet
+(LL ≤ 35, OF ≤ 28 i.e. `offBase < 2^29`, ML ≤ 52), with an RLE table exactly its symbol, with a described table the symbols of non-zero
+normalised count.  For a block that uses `set_repeat`: `CodesOK (Tables.resolve prev t) seqs`. -/
 def CodesOK (t : Tables) (seqs : List SeqIn) : Prop :=
   ∀ s ∈ seqs, okOf MaxLL t.ll (codesOf s).ll ∧ okOf DefaultMaxOff t.of (codesOf s).of ∧ okOf MaxML t.ml (codesOf s).ml
 
-theorem seqSection_eq (t : Tables) (seqs : List SeqIn) (hne : seqs ≠ []) :
-    seqSection t seqs = nbSeqHeader seqs.length ++ seqRest t seqs := by
+instance (t : Tables) (seqs : List SeqIn) : Decidable (CodesOK t seqs) := by unfold CodesOK; infer_instance
+
+theorem seqSection_eq (t : Tables) (seqs : List SeqIn) (hne : seqs ≠ []) (prev : Tables := {}) :
+    seqSection t seqs prev = nbSeqHeader seqs.length ++ seqRest t seqs prev := by
   unfold seqSection seqRest
   cases seqs with
   | nil => exact absurd rfl hne
   | cons a l => simp only [List.isEmpty_cons, Bool.false_eq_true, ↓reduceIte, ByteArray.append_assoc]
 
-theorem seqTail_serialized (t : Tables) (seqs : List SeqIn) (hne : seqs ≠ []) (hrng : ∀ s ∈ seqs, InRange s) (hok : CodesOK t seqs)
+/-- the sequence tables the decoder carries from block to block (`dctx->LLTptr / OFTptr / MLTptr`, `fseEntropy`) ARE the decoding
+tables of the resolved decisions `p` -/
+structure EntIs (p : Tables) (ent : Entropy) : Prop where
+  valid : ent.fseValid = true
+  ll : ent.ll = dtab LL_defaultDTable LL_base LL_bits p.ll
+  llLog : ent.llLog = dlog LL_DEFAULTNORMLOG p.ll
+  of : ent.of = dtab OF_defaultDTable OF_base OF_bits p.of
+  ofLog : ent.ofLog = dlog OF_DEFAULTNORMLOG p.of
+  ml : ent.ml = dtab ML_defaultDTable ML_base ML_bits p.ml
+  mlLog : ent.mlLog = dlog ML_DEFAULTNORMLOG p.ml
+
+/-- the carrier relation between the encoder's `prev : Option Tables` (`BlockEnc.nextTables`) and the decoder's entropy state:
+nothing is claimed while no block with sequences has been written (`none`; the decoder may hold anything, e.g. a dictionary's
+tables: they are never asked for); afterwards the decoder holds the tables of the last resolved decisions, marked valid -/
+def EntMatch (prev : Option Tables) (ent : Entropy) : Prop :=
+  match prev with
+  | none => True
+  | some p => EntIs p ent
+
+/-- two entropy states with the same sequence-table part (the literals stage only touches the Huffman table) -/
+def SameFse (a b : Entropy) : Prop :=
+  a.ll = b.ll ∧ a.llLog = b.llLog ∧ a.of = b.of ∧ a.ofLog = b.ofLog ∧ a.ml = b.ml ∧ a.mlLog = b.mlLog ∧ a.fseValid = b.fseValid
+
+theorem EntIs.of_same {p : Tables} {a b : Entropy} (h : EntIs p b) (hs : SameFse a b) : EntIs p a := by
+  obtain ⟨s1, s2, s3, s4, s5, s6, s7⟩ := hs
+  exact ⟨by rw [s7, h.valid], by rw [s1, h.ll], by rw [s2, h.llLog], by rw [s3, h.of], by rw [s4, h.ofLog], by rw [s5, h.ml],
+    by rw [s6, h.mlLog]⟩
+
+theorem EntMatch.of_same {prev : Option Tables} {a b : Entropy} (h : EntMatch prev b) (hs : SameFse a b) : EntMatch prev a := by
+  cases prev with
+  | none => trivial
+  | some p => exact EntIs.of_same h hs
+
+/-- `seqTail` (modes byte, the three table descriptions, the sequence bit stream) on what the writer wrote behind the nbSeq field, for
+decisions `t` made after the resolved decisions `p`: where `t` says `set_repeat` the decoder must hold the tables of `p` (`hrep`).
+Afterwards it holds the tables of the resolved decisions `Tables.resolve p t`, marked valid. -/
+theorem seqTail_serialized (t : Tables) (seqs : List SeqIn) (hne : seqs ≠ []) (hrng : ∀ s ∈ seqs, InRange s) (p : Tables)
+    (hT : TablesOK (Tables.resolve p t)) (hok : CodesOK (Tables.resolve p t) seqs)
     (src : Bytes) (ip iend : Nat) (lr : Block.LitResult) (dstCap : Nat) (hcap : 0 < dstCap)
-    (H : Holds src ip (seqRest t seqs)) (hend : iend = ip + (seqRest t seqs).size) :
-    ∃ p, seqTail src ip iend seqs.length lr dstCap = .ok p ∧ p.lits = lr.lits ∧
-      p.seqs.toList = (resolveAll (repOf lr.ent.rep) (seqs.map triIn)).1 ∧ p.streamCheck = .ok () ∧
-      p.ent.rep = repArr (resolveAll (repOf lr.ent.rep) (seqs.map triIn)).2 ∧ p.ent.huf = lr.ent.huf ∧ p.tr.nbSeq = seqs.length := by
+    (hrep : usesRepeat t = true → EntIs p lr.ent)
+    (H : Holds src ip (seqRest t seqs p)) (hend : iend = ip + (seqRest t seqs p).size) :
+    ∃ q, seqTail src ip iend seqs.length lr dstCap = .ok q ∧ q.lits = lr.lits ∧
+      q.seqs.toList = (resolveAll (repOf lr.ent.rep) (seqs.map triIn)).1 ∧ q.streamCheck = .ok () ∧
+      q.ent.rep = repArr (resolveAll (repOf lr.ent.rep) (seqs.map triIn)).2 ∧ q.ent.huf = lr.ent.huf ∧ q.tr.nbSeq = seqs.length ∧
+      EntIs (Tables.resolve p t) q.ent := by
   obtain ⟨s0, hs0⟩ : ∃ s0, s0 ∈ seqs := by
     cases seqs with
     | nil => exact absurd rfl hne
@@ -359,15 +500,36 @@ theorem seqTail_serialized (t : Tables) (seqs : List SeqIn) (hne : seqs ≠ []) 
   obtain ⟨r1, r2, r3, r4⟩ := hrng s0 hs0
   obtain ⟨k1, k2, k3⟩ := hok s0 hs0
   have symLL : ∀ s, t.ll = .rle s → s ≤ MaxLL := by
-    intro s hs; rw [hs] at k1; rw [← (show (codesOf s0).ll = s from k1)]; exact SeqRT.llCode_le _ r1
+    intro s hs
+    have k : (codesOf s0).ll = s := by simpa only [Tables.resolve, hs, SeqTableChoice.resolve, okOf] using k1
+    rw [← k]; exact SeqRT.llCode_le _ r1
   have symOF : ∀ s, t.of = .rle s → s ≤ MaxOff := by
-    intro s hs; rw [hs] at k2; rw [← (show (codesOf s0).of = s from k2)]
-    exact (SeqRT.of_code_roundtrip _ r3 r4).2.1
+    intro s hs
+    have k : (codesOf s0).of = s := by simpa only [Tables.resolve, hs, SeqTableChoice.resolve, okOf] using k2
+    rw [← k]; exact (SeqRT.of_code_roundtrip _ r3 r4).2.1
   have symML : ∀ s, t.ml = .rle s → s ≤ MaxML := by
-    intro s hs; rw [hs] at k3; rw [← (show (codesOf s0).ml = s from k3)]; exact SeqRT.mlCode_le _ r2
-  obtain ⟨i1, -, -⟩ := inverts_choice t.ll
-  obtain ⟨-, i2, -⟩ := inverts_choice t.of
-  obtain ⟨-, -, i3⟩ := inverts_choice t.ml
+    intro s hs
+    have k : (codesOf s0).ml = s := by simpa only [Tables.resolve, hs, SeqTableChoice.resolve, okOf] using k3
+    rw [← k]; exact SeqRT.mlCode_le _ r2
+  have repLL : t.ll = .repeat → lr.ent.fseValid = true ∧ lr.ent.ll = dtab LL_defaultDTable LL_base LL_bits p.ll ∧
+      lr.ent.llLog = dlog LL_DEFAULTNORMLOG p.ll := by
+    intro hs
+    have e := hrep (by simp only [usesRepeat, hs, isRepeat, Bool.true_or])
+    exact ⟨e.valid, e.ll, e.llLog⟩
+  have repOF : t.of = .repeat → lr.ent.fseValid = true ∧ lr.ent.of = dtab OF_defaultDTable OF_base OF_bits p.of ∧
+      lr.ent.ofLog = dlog OF_DEFAULTNORMLOG p.of := by
+    intro hs
+    have e := hrep (by simp only [usesRepeat, hs, isRepeat, Bool.true_or, Bool.or_true])
+    exact ⟨e.valid, e.of, e.ofLog⟩
+  have repML : t.ml = .repeat → lr.ent.fseValid = true ∧ lr.ent.ml = dtab ML_defaultDTable ML_base ML_bits p.ml ∧
+      lr.ent.mlLog = dlog ML_DEFAULTNORMLOG p.ml := by
+    intro hs
+    have e := hrep (by simp only [usesRepeat, hs, isRepeat, Bool.or_true])
+    exact ⟨e.valid, e.ml, e.mlLog⟩
+  obtain ⟨hT1, hT2, hT3⟩ := hT
+  obtain ⟨i1, -, -⟩ := inverts_choice (t.ll.resolve p.ll) hT1 (by decide)
+  obtain ⟨-, i2, -⟩ := inverts_choice (t.of.resolve p.of) hT2 (by decide)
+  obtain ⟨-, -, i3⟩ := inverts_choice (t.ml.resolve p.ml) hT3 (by decide)
   unfold seqRest at H hend
   simp only [ByteArray.size_append, LitRT.le_size] at hend
   have Hm := H.left
@@ -389,20 +551,20 @@ theorem seqTail_serialized (t : Tables) (seqs : List SeqIn) (hne : seqs ≠ []) 
     | nil => exact absurd rfl hne
     | cons a l => simp
   have c1 : ¬ ip + 1 > iend := by omega
-  have hb1 := buildSeqTable_choice t.ll src (ip + 1) iend MaxLL LLFSELog LL_base LL_bits LL_defaultDTable LL_DEFAULTNORMLOG
-    lr.ent.ll lr.ent.llLog lr.ent.fseValid H1 (by omega) symLL (by decide)
-  have hb2 := buildSeqTable_choice t.of src (ip + 1 + t.ll.descr.size) iend MaxOff OffFSELog OF_base OF_bits OF_defaultDTable
-    OF_DEFAULTNORMLOG lr.ent.of lr.ent.ofLog lr.ent.fseValid H2 (by omega) symOF (by decide)
-  have hb3 := buildSeqTable_choice t.ml src (ip + 1 + t.ll.descr.size + t.of.descr.size) iend MaxML MLFSELog ML_base ML_bits
-    ML_defaultDTable ML_DEFAULTNORMLOG lr.ent.ml lr.ent.mlLog lr.ent.fseValid H3 (by omega) symML (by decide)
+  have hb1 := buildSeqTable_choice t.ll p.ll src (ip + 1) iend MaxLL LLFSELog LL_base LL_bits LL_defaultDTable LL_DEFAULTNORMLOG
+    lr.ent.ll lr.ent.llLog lr.ent.fseValid H1 (by omega) symLL (by decide) hT1 (by decide) repLL
+  have hb2 := buildSeqTable_choice t.of p.of src (ip + 1 + t.ll.descr.size) iend MaxOff OffFSELog OF_base OF_bits OF_defaultDTable
+    OF_DEFAULTNORMLOG lr.ent.of lr.ent.ofLog lr.ent.fseValid H2 (by omega) symOF (by decide) hT2 (by decide) repOF
+  have hb3 := buildSeqTable_choice t.ml p.ml src (ip + 1 + t.ll.descr.size + t.of.descr.size) iend MaxML MLFSELog ML_base ML_bits
+    ML_defaultDTable ML_DEFAULTNORMLOG lr.ent.ml lr.ent.mlLog lr.ent.fseValid H3 (by omega) symML (by decide) hT3 (by decide) repML
   have hc0 : (dstCap == 0) = false := by simp only [beq_eq_false_iff_ne, ne_eq]; omega
   have hlen : iend - (ip + 1 + t.ll.descr.size + t.of.descr.size + t.ml.descr.size)
-      = (encodeSeqBytes (ctLL t) (ctOF t) (ctML t) seqs).size := by omega
+      = (encodeSeqBytes (ctLL t p) (ctOF t p) (ctML t p) seqs).size := by omega
   unfold seqTail
   simp only [bind, Except.bind, pure, Except.pure, throw, throwThe, MonadExceptOf.throw, hn0, Bool.false_eq_true, ↓reduceIte, c1, hmb,
     q1, q2, q3, q4, bne_self_eq_false, hb1, hb2, hb3, hc0, hlen]
   simp only [ctLL, ctOF, ctML, hinit, m1, m2, m3, Bool.not_true]
-  exact ⟨_, rfl, rfl, m2, rfl, rfl, rfl, rfl⟩
+  exact ⟨_, rfl, rfl, m2, rfl, rfl, rfl, rfl, ⟨rfl, rfl, rfl, rfl, rfl, rfl, rfl⟩⟩
 
 /-! ### 6. the literals section, whatever the mode -/
 
@@ -445,21 +607,21 @@ theorem basicHeader_size_pos (ty n : Nat) : 0 < (basicHeader ty n).size := by
   all_goals rw [LitRT.le_size]; omega
 
 /-- **literals section, any mode**: ZSTD_decodeLiteralsBlock reads the section `litSection c lits` back: the literals, exactly the
-section consumed; of the entropy state only the Huffman table may change -/
+section consumed; of the entropy state only the Huffman table may change (`SameFse`: the sequence tables and their validity flag stay) -/
 theorem litSection_roundtrip (c : LitChoice) (lits : ByteArray) (hc : LitOK c lits) (h17 : lits.size ≤ 2 ^ 17)
     (src : Bytes) (start srcSize : Nat) (ent : Entropy) (bsm dstCap : Nat)
     (H : Holds src start (litSection c lits)) (hbsm : lits.size ≤ bsm) (hcap : lits.size ≤ dstCap)
     (hsz : (litSection c lits).size + 1 ≤ srcSize) :
     ∃ lr, Block.decodeLiterals src start srcSize ent bsm dstCap = .ok lr ∧ lr.lits = lits ∧
-      lr.used = (litSection c lits).size ∧ lr.ent.rep = ent.rep := by
+      lr.used = (litSection c lits).size ∧ lr.ent.rep = ent.rep ∧ SameFse lr.ent ent := by
   have hraw : ∀ (Hr : Holds src start (rawLiterals lits)) (hs : (rawLiterals lits).size + 1 ≤ srcSize),
       ∃ lr, Block.decodeLiterals src start srcSize ent bsm dstCap = .ok lr ∧ lr.lits = lits ∧
-        lr.used = (rawLiterals lits).size ∧ lr.ent.rep = ent.rep := by
+        lr.used = (rawLiterals lits).size ∧ lr.ent.rep = ent.rep ∧ SameFse lr.ent ent := by
     intro Hr hs
     have hp : 0 < (rawLiterals lits).size := by
       unfold rawLiterals; rw [ByteArray.size_append]; have := basicHeader_size_pos set_basic lits.size; omega
     exact ⟨_, LitRT.literals_roundtrip_raw lits src start srcSize ent bsm dstCap Hr.extract (by omega) hbsm hcap (by omega)
-      (by unfold MIN_CBLOCK_SIZE; omega), rfl, rfl, rfl⟩
+      (by unfold MIN_CBLOCK_SIZE; omega), rfl, rfl, rfl, ⟨rfl, rfl, rfl, rfl, rfl, rfl, rfl⟩⟩
   cases c with
   | raw => exact hraw H hsz
   | rle =>
@@ -470,7 +632,7 @@ theorem litSection_roundtrip (c : LitChoice) (lits : ByteArray) (hc : LitOK c li
     have hp : 0 < (rleLiterals (LitRT.rleBytes n b)).size := by
       unfold rleLiterals; rw [ByteArray.size_push]; omega
     exact ⟨_, LitRT.literals_roundtrip_rle n b src start srcSize ent bsm dstCap H.extract (by omega) hbsm hcap (by omega)
-      (by unfold MIN_CBLOCK_SIZE; omega), rfl, rfl, rfl⟩
+      (by unfold MIN_CBLOCK_SIZE; omega), rfl, rfl, rfl, ⟨rfl, rfl, rfl, rfl, rfl, rfl, rfl⟩⟩
   | huffman ws last log =>
     simp only [litSection] at H hsz ⊢
     cases hh : hufLiterals (ws.toArray.push last) log (symsOf lits) with
@@ -496,11 +658,11 @@ theorem litSection_roundtrip (c : LitChoice) (lits : ByteArray) (hc : LitOK c li
           have := LitRT.literals_roundtrip_compressed ws last log hc.ok hc.last_pos hc.log_le hc.two_ones hc.ws_ne
             (decide ((symsOf lits).length < 256)) wh streams (symsOf lits) hwh hst hc.syms src start srcSize ent bsm dstCap H.extract
             (by intro h; have := of_decide_eq_true h; omega) (by omega) (by omega) (by omega) (by omega) (by omega)
-          exact ⟨_, this, litBytes_symsOf lits, rfl, rfl⟩
+          exact ⟨_, this, litBytes_symsOf lits, rfl, rfl, ⟨rfl, rfl, rfl, rfl, rfl, rfl, rfl⟩⟩
 
 /-! ### 7. `Block.prepare` on a serialized block body -/
 
-theorem seqSection_size_pos (t : Tables) (seqs : List SeqIn) : 0 < (seqSection t seqs).size := by
+theorem seqSection_size_pos (t : Tables) (seqs : List SeqIn) (prev : Tables := {}) : 0 < (seqSection t seqs prev).size := by
   have h := nbSeqHeader_size
   unfold seqSection
   split
@@ -509,33 +671,49 @@ theorem seqSection_size_pos (t : Tables) (seqs : List SeqIn) : 0 < (seqSection t
     have := h seqs.length
     split at this <;> (try split at this) <;> omega
 
+theorem nextTables_nil (pt : Option Tables) (t : Tables) : nextTables pt t [] = pt := rfl
+
+theorem nextTables_ne (pt : Option Tables) (t : Tables) (seqs : List SeqIn) (hne : seqs ≠ []) :
+    nextTables pt t seqs = some (Tables.resolve (pt.getD {}) t) := by
+  cases seqs with
+  | nil => exact absurd rfl hne
+  | cons a l => rfl
+
 /-- **prepare_serialized**.  On the body that ZSTD_entropyCompressSeqStore_internal writes for the literals `lits` and the seqStore
-entries `seqs` (`serializeBlockBody`, tables predefined or RLE), the first half of ZSTD_decompressBlock_internal (`Block.prepare`)
+entries `seqs` (`serializeBlockBody`; tables predefined, RLE, described by FSE_writeNCount, or repeated from the previous block with
+sequences), the first half of ZSTD_decompressBlock_internal (`Block.prepare`)
 succeeds and hands out: the literals; the sequences with `(ll, ml, ofValue) = (litLength, mlBase + 3, offBase)` and offsets resolved
 by `Rep.resolve` along the decoder's history (`SeqRT.resolveAll`); a passed end-of-stream check; the history after the block.
-Hypotheses: the mode-specific ones on the literals (`LitOK`), value ranges (`InRange`), codes expressible by the chosen tables
-(`CodesOK`), sizes within the block-size limit and the output room; `seqs.length < LONGNBSEQ + 65536` is what the nbSeq field can hold. -/
+Hypotheses: the mode-specific ones on the literals (`LitOK`), value ranges (`InRange`), sizes within the block-size limit and the output
+room; `seqs.length < LONGNBSEQ + 65536` is what the nbSeq field can hold.  On the tables: `pt` = the resolved decisions of the previous
+block with sequences, if any (`BlockEnc.nextTables`), and the decoder carries their tables (`EntMatch pt ent`); `set_repeat` needs such a
+block (`hrp`); the resolved decisions are acceptable (`TablesOK`) and can express the codes of `seqs` (`CodesOK`).  Afterwards the
+decoder carries the tables of `nextTables pt t seqs`: the next block starts in lock step.  With `pt = none` and no `set_repeat` in `t`
+(`resolve_of_not_usesRepeat`) this is the statement about one block on its own. -/
 theorem prepare_serialized (c : LitChoice) (lits : ByteArray) (t : Tables) (seqs : List SeqIn)
     (hc : LitOK c lits) (h17 : lits.size ≤ 2 ^ 17) (hn : seqs.length < LONGNBSEQ + 65536)
-    (hrng : ∀ s ∈ seqs, InRange s) (hok : CodesOK t seqs)
-    (src : Bytes) (start : Nat) (ent : Entropy) (bsm dstCap : Nat)
-    (H : Holds src start (serializeBlockBody c lits t seqs))
-    (hsize : (serializeBlockBody c lits t seqs).size ≤ bsm) (hbsm : lits.size ≤ bsm) (hcap : lits.size ≤ dstCap)
+    (hrng : ∀ s ∈ seqs, InRange s) (pt : Option Tables) (hrp : usesRepeat t = true → pt.isSome = true)
+    (hT : TablesOK (Tables.resolve (pt.getD {}) t)) (hok : CodesOK (Tables.resolve (pt.getD {}) t) seqs)
+    (src : Bytes) (start : Nat) (ent : Entropy) (bsm dstCap : Nat) (hent : EntMatch pt ent)
+    (H : Holds src start (serializeBlockBody c lits t seqs (pt.getD {})))
+    (hsize : (serializeBlockBody c lits t seqs (pt.getD {})).size ≤ bsm) (hbsm : lits.size ≤ bsm) (hcap : lits.size ≤ dstCap)
     (hcap0 : seqs ≠ [] → 0 < dstCap) :
-    ∃ p, Block.prepare src start (serializeBlockBody c lits t seqs).size ent bsm dstCap = .ok p ∧ p.lits = lits ∧
+    ∃ p, Block.prepare src start (serializeBlockBody c lits t seqs (pt.getD {})).size ent bsm dstCap = .ok p ∧ p.lits = lits ∧
       p.seqs.toList = (resolveAll (repOf ent.rep) (seqs.map triIn)).1 ∧ p.streamCheck = .ok () ∧
-      repOf p.ent.rep = (resolveAll (repOf ent.rep) (seqs.map triIn)).2 ∧ p.tr.nbSeq = seqs.length := by
+      repOf p.ent.rep = (resolveAll (repOf ent.rep) (seqs.map triIn)).2 ∧ p.tr.nbSeq = seqs.length ∧
+      EntMatch (nextTables pt t seqs) p.ent := by
   unfold serializeBlockBody at H hsize ⊢
-  have hpos := seqSection_size_pos t seqs
-  have hB : (litSection c lits ++ seqSection t seqs).size = (litSection c lits).size + (seqSection t seqs).size :=
+  have hpos := seqSection_size_pos t seqs (pt.getD {})
+  have hB : (litSection c lits ++ seqSection t seqs (pt.getD {})).size = (litSection c lits).size + (seqSection t seqs (pt.getD {})).size :=
     ByteArray.size_append
-  generalize (litSection c lits ++ seqSection t seqs).size = cSize at hB hsize ⊢
-  obtain ⟨lr, hlit, l1, l2, l3⟩ := litSection_roundtrip c lits hc h17 src start cSize ent bsm dstCap H.left hbsm hcap (by omega)
+  generalize (litSection c lits ++ seqSection t seqs (pt.getD {})).size = cSize at hB hsize ⊢
+  obtain ⟨lr, hlit, l1, l2, l3, l4⟩ := litSection_roundtrip c lits hc h17 src start cSize ent bsm dstCap H.left hbsm hcap (by omega)
+  have hent2 : EntMatch pt lr.ent := hent.of_same l4
   have Hs := H.right
   rw [← l2] at Hs hB
   by_cases hne : seqs = []
   · subst hne
-    have hs0 : seqSection t [] = nbSeqHeader 0 := rfl
+    have hs0 : seqSection t [] (pt.getD {}) = nbSeqHeader 0 := rfl
     rw [hs0] at Hs hB
     have h1 : (nbSeqHeader 0).size = 1 := by rw [nbSeqHeader_size]; rfl
     have hnb := seq_header_roundtrip 0 (by decide) src _ (start + cSize) Hs (by omega)
@@ -547,13 +725,21 @@ theorem prepare_serialized (c : LitChoice) (lits : ByteArray) (t : Tables) (seqs
       simp only [bind, Except.bind, pure, Except.pure, throw, throwThe, MonadExceptOf.throw, BEq.rfl, ↓reduceIte, hend,
         bne_self_eq_false, Bool.false_eq_true]
       exact ⟨_, rfl, rfl, rfl, rfl, rfl, rfl⟩
-    exact ⟨p, prepare_of_parts hsize hlit hnb hp, by rw [p1, l1], by rw [p2]; rfl, p3, by rw [p4, l3]; rfl, p5⟩
-  · rw [seqSection_eq t seqs hne] at Hs hB
+    exact ⟨p, prepare_of_parts hsize hlit hnb hp, by rw [p1, l1], by rw [p2]; rfl, p3, by rw [p4, l3]; rfl, p5,
+      by rw [nextTables_nil, p4]; exact hent2⟩
+  · rw [seqSection_eq t seqs hne (pt.getD {})] at Hs hB
     rw [ByteArray.size_append] at hB
     have hnb := seq_header_roundtrip seqs.length hn src _ (start + cSize) Hs.left (by omega)
-    obtain ⟨p, hp, p1, p2, p3, p4, p5, p6⟩ := seqTail_serialized t seqs hne hrng hok src _ (start + cSize) lr dstCap (hcap0 hne)
-      Hs.right (by omega)
-    exact ⟨p, prepare_of_parts hsize hlit hnb hp, by rw [p1, l1], by rw [p2, l3], p3, by rw [p4, SeqRT.repOf_repArr, l3], p6⟩
+    have hrep : usesRepeat t = true → EntIs (pt.getD {}) lr.ent := by
+      intro hu
+      have hs := hrp hu
+      cases pt with
+      | none => cases hs
+      | some p0 => exact hent2
+    obtain ⟨p, hp, p1, p2, p3, p4, p5, p6, p7⟩ := seqTail_serialized t seqs hne hrng (pt.getD {}) hT hok src _ (start + cSize) lr dstCap
+      (hcap0 hne) hrep Hs.right (by omega)
+    exact ⟨p, prepare_of_parts hsize hlit hnb hp, by rw [p1, l1], by rw [p2, l3], p3, by rw [p4, SeqRT.repOf_repArr, l3], p6,
+      by rw [nextTables_ne pt t seqs hne]; exact p7⟩
 
 /-! ### 8. valid parses: sizes, and independence of the `ofValue` field -/
 
@@ -637,24 +823,33 @@ def toSeq (q : SeqRT.RawSeq) : Seq := { ll := q.litLength, ml := q.mlBase + 3, o
 before it, `pre` the output of earlier frames, `dict` the dictionary content.  For EVERY parse `(lits, raws)` of `x` that is valid over
 the history `dict ++ prev` (`Exec.ValidParse`: literal runs and matches reproduce `x`; matches may overlap themselves and reach into the
 dictionary) - whatever match finder produced it - let `seqsIn` be the seqStore entries ZSTD_finalizeOffBase / ZSTD_updateRep make of
-it along the encoder's repeat-offset history.  If the body `serializeBlockBody c lits t seqsIn` (literals raw / RLE / Huffman, tables
-predefined / RLE) sits at `start` in `src`, then ZSTD_decompressBlock_internal (`Block.decodeBlock`) appends exactly `x`, and the
-decoder's repeat-offset history after the block IS the encoder's (and is positive): the next block starts in lock step.
+it along the encoder's repeat-offset history, and `pt` the resolved table decisions of the previous block with sequences of the frame, if
+any (`BlockEnc.nextTables`).  If the body `serializeBlockBody c lits t seqsIn (pt.getD {})` (literals raw / RLE / Huffman; each of the three
+sequence tables predefined (`set_basic`) / RLE (`set_rle`) / described by FSE_writeNCount (`set_compressed`) / repeated from that previous
+block (`set_repeat`)) sits at `start` in `src`, then ZSTD_decompressBlock_internal (`Block.decodeBlock`) appends exactly `x`, the
+decoder's repeat-offset history after the block IS the encoder's (and is positive), and the sequence tables the decoder carries are those
+of `nextTables pt t seqsIn`: the next block starts in lock step.
 Hypotheses, all of them facts the compressor guarantees: block content and compressed size within the block-size limit `bsm ≤ 2^17`,
-offsets fit a U32 (`rawOffset + 3 < 2^32`), the mode decisions are applicable (`LitOK`, `CodesOK`), the histories agree and are
-positive at the start, the destination can hold the content.  (Lengths < 2^17 and nbSeq < LONGNBSEQ + 65536 FOLLOW from validity.) -/
+offsets fit a U32 (`rawOffset + 3 < 2^32`), the mode decisions are applicable (`LitOK`; `set_repeat` only after a block with sequences;
+`TablesOK` and `CodesOK` of the resolved decisions), the histories agree and are positive at the start, the decoder carries the tables
+of `pt` (`EntMatch`), the destination can hold the content.  (Lengths < 2^17 and nbSeq < LONGNBSEQ + 65536 FOLLOW from validity.)
+For `pt = none` and `t` built from `.predefined` / `.rle` this is, word for word, the earlier statement (then `Tables.resolve _ t = t`:
+`resolve_of_not_usesRepeat`, `TablesOK t` and `EntMatch none ent` hold trivially and `serializeBlockBody c lits t seqsIn {}` is the body
+without previous tables). -/
 theorem block_roundtrip (dict pre prev x lits : ByteArray) (raws : List SeqRT.RawSeq) (c : LitChoice) (t : Tables)
-    (src : Bytes) (start : Nat) (ent : Entropy) (bsm cap : Nat)
+    (src : Bytes) (start : Nat) (ent : Entropy) (bsm cap : Nat) (pt : Option Tables)
     (hv : ValidParse dict prev x lits (raws.map toSeq))
     (hx : x.size ≤ bsm) (hb17 : bsm ≤ 2 ^ 17) (hoff : ∀ q ∈ raws, q.rawOffset + 3 < 2 ^ 32)
-    (hrep : RepPos (repOf ent.rep))
-    (hc : LitOK c lits) (hok : CodesOK t (SeqRT.storeAll (repOf ent.rep) raws).1)
-    (H : Holds src start (serializeBlockBody c lits t (SeqRT.storeAll (repOf ent.rep) raws).1))
-    (hsize : (serializeBlockBody c lits t (SeqRT.storeAll (repOf ent.rep) raws).1).size ≤ bsm)
+    (hrep : RepPos (repOf ent.rep)) (hent : EntMatch pt ent)
+    (hc : LitOK c lits) (hrp : usesRepeat t = true → pt.isSome = true) (hT : TablesOK (Tables.resolve (pt.getD {}) t))
+    (hok : CodesOK (Tables.resolve (pt.getD {}) t) (SeqRT.storeAll (repOf ent.rep) raws).1)
+    (H : Holds src start (serializeBlockBody c lits t (SeqRT.storeAll (repOf ent.rep) raws).1 (pt.getD {})))
+    (hsize : (serializeBlockBody c lits t (SeqRT.storeAll (repOf ent.rep) raws).1 (pt.getD {})).size ≤ bsm)
     (hcap : pre.size + prev.size + x.size ≤ cap) :
-    ∃ ent2 tr, Block.decodeBlock src start (serializeBlockBody c lits t (SeqRT.storeAll (repOf ent.rep) raws).1).size ent dict
+    ∃ ent2 tr, Block.decodeBlock src start (serializeBlockBody c lits t (SeqRT.storeAll (repOf ent.rep) raws).1 (pt.getD {})).size ent dict
         { out := pre ++ prev, frameStart := pre.size, cap := cap } bsm = .ok (pre ++ prev ++ x, ent2, tr) ∧
-      repOf ent2.rep = (SeqRT.storeAll (repOf ent.rep) raws).2 ∧ RepPos (repOf ent2.rep) ∧ tr.nbSeq = raws.length := by
+      repOf ent2.rep = (SeqRT.storeAll (repOf ent.rep) raws).2 ∧ RepPos (repOf ent2.rep) ∧ tr.nbSeq = raws.length ∧
+      EntMatch (nextTables pt t (SeqRT.storeAll (repOf ent.rep) raws).1) ent2 := by
   obtain ⟨-, -, v3, v4⟩ := validFrom_sizes dict (prev ++ x) lits _ _ _ hv
   rw [ByteArray.size_append] at v3 v4
   have hml : ∀ s ∈ raws.map toSeq, 3 ≤ s.ml := by
@@ -673,8 +868,8 @@ theorem block_roundtrip (dict pre prev x lits : ByteArray) (raws : List SeqRT.Ra
   have hrng := sr (fun q h => ⟨(hq q h).1, (hq q h).2.1, (hq q h).2.2.2⟩)
   obtain ⟨t1, t2⟩ := SeqRT.resolveAll_storeAll (repOf ent.rep) raws hrep.1 hrep.2.1 hrep.2.2 (fun q h => (hq q h).2.2.1)
   have hsz : (pre ++ prev).size = pre.size + prev.size := ByteArray.size_append
-  obtain ⟨p, hp, p1, p2, p3, p4, p5⟩ := prepare_serialized c lits t _ hc (by omega) (by rw [sl]; unfold LONGNBSEQ; omega) hrng hok
-    src start ent bsm (cap - (pre ++ prev).size) H hsize (by omega) (by rw [hsz]; omega)
+  obtain ⟨p, hp, p1, p2, p3, p4, p5, p6⟩ := prepare_serialized c lits t _ hc (by omega) (by rw [sl]; unfold LONGNBSEQ; omega) hrng pt hrp hT hok
+    src start ent bsm (cap - (pre ++ prev).size) hent H hsize (by omega) (by rw [hsz]; omega)
     (by
       intro hne
       have : raws ≠ [] := by intro e; rw [e] at hne; exact hne rfl
@@ -685,9 +880,29 @@ theorem block_roundtrip (dict pre prev x lits : ByteArray) (raws : List SeqRT.Ra
     rw [List.map_map]
     exact t1.symm
   have hexec := Exec.exec_of_validParse_frame dict pre prev x lits _ cap hv2 hcap
-  refine ⟨p.ent, p.tr, ?_, by rw [p4, t2], by rw [p4, t2]; exact storeAll_pos _ _ hrep (fun q h => (hq q h).2.2.1), by rw [p5, sl]⟩
+  refine ⟨p.ent, p.tr, ?_, by rw [p4, t2], by rw [p4, t2]; exact storeAll_pos _ _ hrep (fun q h => (hq q h).2.2.1), by rw [p5, sl], p6⟩
   unfold Block.decodeBlock
   simp only [hp, bind, Except.bind, Block.finish, p1, p2, p3, hexec]
+
+/-- **block_roundtrip_basic**: a block on its own - no `set_repeat`, no knowledge of earlier blocks (`pt = none`).  This is the
+statement `block_roundtrip` made before `set_compressed` / `set_repeat` were covered (for predefined / RLE tables `TablesOK t` is `True`),
+now also for described tables. -/
+theorem block_roundtrip_basic (dict pre prev x lits : ByteArray) (raws : List SeqRT.RawSeq) (c : LitChoice) (t : Tables)
+    (src : Bytes) (start : Nat) (ent : Entropy) (bsm cap : Nat)
+    (hv : ValidParse dict prev x lits (raws.map toSeq))
+    (hx : x.size ≤ bsm) (hb17 : bsm ≤ 2 ^ 17) (hoff : ∀ q ∈ raws, q.rawOffset + 3 < 2 ^ 32)
+    (hrep : RepPos (repOf ent.rep))
+    (hc : LitOK c lits) (hnr : usesRepeat t = false) (hT : TablesOK t) (hok : CodesOK t (SeqRT.storeAll (repOf ent.rep) raws).1)
+    (H : Holds src start (serializeBlockBody c lits t (SeqRT.storeAll (repOf ent.rep) raws).1))
+    (hsize : (serializeBlockBody c lits t (SeqRT.storeAll (repOf ent.rep) raws).1).size ≤ bsm)
+    (hcap : pre.size + prev.size + x.size ≤ cap) :
+    ∃ ent2 tr, Block.decodeBlock src start (serializeBlockBody c lits t (SeqRT.storeAll (repOf ent.rep) raws).1).size ent dict
+        { out := pre ++ prev, frameStart := pre.size, cap := cap } bsm = .ok (pre ++ prev ++ x, ent2, tr) ∧
+      repOf ent2.rep = (SeqRT.storeAll (repOf ent.rep) raws).2 ∧ RepPos (repOf ent2.rep) ∧ tr.nbSeq = raws.length := by
+  have hr : Tables.resolve ((none : Option Tables).getD {}) t = t := resolve_of_not_usesRepeat _ t hnr
+  obtain ⟨ent2, tr, h1, h2, h3, h4, -⟩ := block_roundtrip dict pre prev x lits raws c t src start ent bsm cap none hv hx hb17 hoff hrep
+    trivial hc (by rw [hnr]; intro h; cases h) (by rw [hr]; exact hT) (by rw [hr]; exact hok) H hsize hcap
+  exact ⟨ent2, tr, h1, h2, h3, h4⟩
 
 /-! ### 11. frames that contain compressed blocks -/
 
@@ -703,18 +918,27 @@ theorem storeAll_toRT (rep : Rep.R) (raws : List BlockEnc.RawSeq) : BlockEnc.sto
   | cons q qs ih => simp only [BlockEnc.storeAll, SeqRT.storeAll, List.map_cons, toRT, ih]
 
 /-- the block list tiles `x[pos, x.size)` and every compressed block carries a VALID parse of its stretch over the content before it
-(and the dictionary content `dc`), with applicable mode decisions; `rep` = the encoder's repeat-offset history in front of the block -/
-def Tiles2 (dc : ByteArray) (bsm : Nat) (x : ByteArray) : List BlockChoice2 → Nat → Rep.R → Prop
-  | [], pos, _ => pos = x.size
-  | .raw n :: rest, pos, rep => pos + n ≤ x.size ∧ n ≤ bsm ∧ Tiles2 dc bsm x rest (pos + n) rep
-  | .rle b n :: rest, pos, rep =>
-    pos + n ≤ x.size ∧ n ≤ bsm ∧ x.extract pos (pos + n) = ByteArray.mk (Array.replicate n b) ∧ Tiles2 dc bsm x rest (pos + n) rep
-  | .compressed c t lits raws :: rest, pos, rep =>
+(and the dictionary content `dc`), with applicable mode decisions; `rep` = the encoder's repeat-offset history in front of the block;
+`prev` = the resolved sequence-table decisions of the last compressed block with sequences in front of the block (`none`: there is none
+yet), threaded by `BlockEnc.nextTables` exactly as `serializeBlocks2` threads it.  A block that uses `set_repeat` needs such a block
+(`usesRepeat t → prev.isSome`); the resolved decisions must be acceptable to the decoder (`TablesOK`) and express the codes (`CodesOK`).
+(These three are asked of every compressed block; a block without sequences writes no table decisions, so `t = {}` can always be
+passed for it: `seqSection` ignores `t` then.) -/
+def Tiles2 (dc : ByteArray) (bsm : Nat) (x : ByteArray) (bs : List BlockChoice2) (pos : Nat) (rep : Rep.R)
+    (prev : Option Tables := none) : Prop :=
+  match bs with
+  | [] => pos = x.size
+  | .raw n :: rest => pos + n ≤ x.size ∧ n ≤ bsm ∧ Tiles2 dc bsm x rest (pos + n) rep prev
+  | .rle b n :: rest =>
+    pos + n ≤ x.size ∧ n ≤ bsm ∧ x.extract pos (pos + n) = ByteArray.mk (Array.replicate n b) ∧ Tiles2 dc bsm x rest (pos + n) rep prev
+  | .compressed c t lits raws :: rest =>
     pos + parseLen lits raws ≤ x.size ∧ parseLen lits raws ≤ bsm ∧
     ValidParse dc (x.extract 0 pos) (x.extract pos (pos + parseLen lits raws)) lits ((raws.map toRT).map toSeq) ∧
-    (∀ q ∈ raws, q.rawOffset + 3 < 2 ^ 32) ∧ LitOK c lits ∧ CodesOK t (BlockEnc.storeAll rep raws).1 ∧
-    (serializeBlockBody c lits t (BlockEnc.storeAll rep raws).1).size ≤ bsm ∧
-    Tiles2 dc bsm x rest (pos + parseLen lits raws) (BlockEnc.storeAll rep raws).2
+    (∀ q ∈ raws, q.rawOffset + 3 < 2 ^ 32) ∧ LitOK c lits ∧
+    (usesRepeat t = true → prev.isSome = true) ∧ TablesOK (Tables.resolve (prev.getD {}) t) ∧
+    CodesOK (Tables.resolve (prev.getD {}) t) (BlockEnc.storeAll rep raws).1 ∧
+    (serializeBlockBody c lits t (BlockEnc.storeAll rep raws).1 (prev.getD {})).size ≤ bsm ∧
+    Tiles2 dc bsm x rest (pos + parseLen lits raws) (BlockEnc.storeAll rep raws).2 (nextTables prev t (BlockEnc.storeAll rep raws).1)
 
 /-- what one iteration of the block loop of `Frame.decompressFrame` does on a compressed block whose body decodes -/
 def StepCmp (src dc : ByteArray) (fs cap bsm : Nat) (f : Nat → St → R (ForInStep St)) : Prop :=
@@ -726,22 +950,22 @@ def StepCmp (src dc : ByteArray) (fs cap bsm : Nat) (f : Nat → St → R (ForIn
     ∃ bt : Frame.BlockTrace, bt.hdr.last = last ∧
       f i (ip, rem, out, ent, blocks, none) = .ok (stepOf last (ip + 3 + body.size, rem - 3 - body.size, out2, ent2, blocks.push bt, none))
 
-theorem serializeBlocks2_size_ge (x : ByteArray) (bs : List BlockChoice2) (pos : Nat) (rep : Rep.R) :
-    3 * bs.length ≤ (serializeBlocks2 x bs pos rep).size := by
-  induction bs generalizing pos rep with
+theorem serializeBlocks2_size_ge (x : ByteArray) (bs : List BlockChoice2) (pos : Nat) (rep : Rep.R) (prev : Option Tables := none) :
+    3 * bs.length ≤ (serializeBlocks2 x bs pos rep prev).size := by
+  induction bs generalizing pos rep prev with
   | nil => simp [serializeBlocks2]
   | cons c rest ih =>
     cases c with
     | raw n =>
-      have := ih (pos + n) rep
+      have := ih (pos + n) rep prev
       simp only [serializeBlocks2, noCompressBlock, ByteArray.size_append, blockHeader24_size, List.length_cons] at this ⊢
       omega
     | rle b n =>
-      have := ih (pos + n) rep
+      have := ih (pos + n) rep prev
       simp only [serializeBlocks2, rleCompressBlock, ByteArray.size_append, blockHeader24_size, List.length_cons] at this ⊢
       omega
     | compressed c t lits raws =>
-      have := ih (pos + parseLen lits raws) (BlockEnc.storeAll rep raws).2
+      have := ih (pos + parseLen lits raws) (BlockEnc.storeAll rep raws).2 (nextTables prev t (BlockEnc.storeAll rep raws).1)
       simp only [serializeBlocks2, compressedBlock, ByteArray.size_append, blockHeader24_size, List.length_cons] at this ⊢
       omega
 
@@ -751,24 +975,26 @@ theorem ext_step (out0 x : ByteArray) (pos n : Nat) :
 
 /-- the block loop of `Frame.decompressFrame` on serialized raw / RLE / COMPRESSED blocks: it stops at the flagged block with exactly the
 tiled content appended and every input byte of the blocks consumed.  The entropy state is threaded through the blocks; what the
-induction needs of it is the repeat-offset history, in lock step with the encoder's (`block_roundtrip`). -/
+induction needs of it is the repeat-offset history and the carried sequence tables, both in lock step with the encoder's
+(`block_roundtrip`: `repOf ent.rep = rep`, `EntMatch pt ent`); raw and RLE blocks leave the decoder's entropy state untouched, as they
+leave the encoder's `rep` / `prev`. -/
 theorem blocks_loop2 (src dc x out0 : ByteArray) (cap bsm r : Nat) (f : Nat → St → R (ForInStep St)) (hbsm : bsm ≤ 2 ^ 17)
     (hraw : StepRaw src cap bsm f) (hrle : StepRle src cap bsm f) (hcmp : StepCmp src dc out0.size cap bsm f)
     (hcap : out0.size + x.size ≤ cap) :
     ∀ (bs : List BlockChoice2) (l : List Nat) (pos ip rem : Nat) (out : ByteArray) (ent : Entropy) (blocks : Array Frame.BlockTrace)
-      (rep : Rep.R), out = out0 ++ x.extract 0 pos →
-      bs ≠ [] → bs.length ≤ l.length → Tiles2 dc bsm x bs pos rep → repOf ent.rep = rep → RepPos rep →
-      Holds src ip (serializeBlocks2 x bs pos rep) → rem = (serializeBlocks2 x bs pos rep).size + r →
+      (rep : Rep.R) (pt : Option Tables), out = out0 ++ x.extract 0 pos →
+      bs ≠ [] → bs.length ≤ l.length → Tiles2 dc bsm x bs pos rep pt → repOf ent.rep = rep → RepPos rep → EntMatch pt ent →
+      Holds src ip (serializeBlocks2 x bs pos rep pt) → rem = (serializeBlocks2 x bs pos rep pt).size + r →
       ∃ (bl : Array Frame.BlockTrace) (ent2 : Entropy), bl.back?.map (·.hdr.last) = some true ∧
         forIn l ((ip, rem, out, ent, blocks, none) : St) f =
-          .ok (ip + (serializeBlocks2 x bs pos rep).size, r, out0 ++ x, ent2, bl, none) := by
+          .ok (ip + (serializeBlocks2 x bs pos rep pt).size, r, out0 ++ x, ent2, bl, none) := by
   have hfin : ∀ pos, pos = x.size → out0 ++ x.extract 0 pos = out0 ++ x := by
     intro pos hp; rw [hp, ByteArray.extract_zero_size]
   intro bs
   induction bs with
-  | nil => intro _ _ _ _ _ _ _ _ _ h; exact absurd rfl h
+  | nil => intro _ _ _ _ _ _ _ _ _ _ h; exact absurd rfl h
   | cons c rest ih =>
-    intro l pos ip rem out ent blocks rep hout _ hl ht hre hrp hh hrem
+    intro l pos ip rem out ent blocks rep pt hout _ hl ht hre hrp hem hh hrem
     subst hout
     cases l with
     | nil => simp at hl
@@ -794,8 +1020,8 @@ theorem blocks_loop2 (src dc x out0 : ByteArray) (cap bsm r : Nat) (f : Nat → 
           obtain ⟨bt, hbt, hf⟩ := hraw a ip rem (out0 ++ x.extract 0 pos) ent blocks false n _ hh.left hds (by omega) (by omega) t2 (by omega)
           have hr := hh.right
           simp only [ByteArray.size_append, blockHeader24_size, hds] at hr
-          obtain ⟨bl, ent2, hb1, hb2⟩ := ih l2 (pos + n) (ip + (3 + n)) (rem - 3 - n) _ ent (blocks.push bt) rep rfl
-            (by simp) hl2 t3 hre hrp hr (by omega)
+          obtain ⟨bl, ent2, hb1, hb2⟩ := ih l2 (pos + n) (ip + (3 + n)) (rem - 3 - n) _ ent (blocks.push bt) rep pt rfl
+            (by simp) hl2 t3 hre hrp hem hr (by omega)
           refine ⟨bl, ent2, hb1, ?_⟩
           rw [forIn_cons_yield _ _ _ _ _ hf, ext_step]
           rw [show ip + 3 + n = ip + (3 + n) by omega, hb2, Nat.add_assoc]
@@ -819,13 +1045,13 @@ theorem blocks_loop2 (src dc x out0 : ByteArray) (cap bsm r : Nat) (f : Nat → 
           obtain ⟨bt, hbt, hf⟩ := hrle a ip rem (out0 ++ x.extract 0 pos) ent blocks false n b hh.left (by omega) (by omega) t2 (by omega)
           have hr := hh.right
           simp only [ByteArray.size_append, blockHeader24_size, hos1] at hr
-          obtain ⟨bl, ent2, hb1, hb2⟩ := ih l2 (pos + n) (ip + (3 + 1)) (rem - 3 - 1) _ ent (blocks.push bt) rep rfl
-            (by simp) hl2 t3 hre hrp hr (by omega)
+          obtain ⟨bl, ent2, hb1, hb2⟩ := ih l2 (pos + n) (ip + (3 + 1)) (rem - 3 - 1) _ ent (blocks.push bt) rep pt rfl
+            (by simp) hl2 t3 hre hrp hem hr (by omega)
           refine ⟨bl, ent2, hb1, ?_⟩
           rw [forIn_cons_yield _ _ _ _ _ hf, ← t4, ext_step]
           rw [show ip + 3 + 1 = ip + (3 + 1) by omega, hb2, Nat.add_assoc]
       | compressed c t lits raws =>
-        obtain ⟨t1, t2, tv, toff, tlit, tcodes, tsz, t3⟩ := ht
+        obtain ⟨t1, t2, tv, toff, tlit, trp, ttab, tcodes, tsz, t3⟩ := ht
         have hos : (out0 ++ x.extract 0 pos).size = out0.size + pos := by
           rw [ByteArray.size_append, ByteArray.size_extract]; omega
         have hds : (x.extract pos (pos + parseLen lits raws)).size = parseLen lits raws := by rw [ByteArray.size_extract]; omega
@@ -835,11 +1061,11 @@ theorem blocks_loop2 (src dc x out0 : ByteArray) (cap bsm r : Nat) (f : Nat → 
         rw [storeAll_toRT, ← hre] at tcodes tsz hh hrem t3 ⊢
         have hbody := hh.left.right
         rw [blockHeader24_size] at hbody
-        obtain ⟨ent2, tr, hdec, hrep2, hpos2, -⟩ := block_roundtrip dc out0 (x.extract 0 pos) (x.extract pos (pos + parseLen lits raws))
-          lits (raws.map toRT) c t src (ip + 3) ent bsm cap tv (by omega) hbsm
+        obtain ⟨ent2, tr, hdec, hrep2, hpos2, -, hem2⟩ := block_roundtrip dc out0 (x.extract 0 pos) (x.extract pos (pos + parseLen lits raws))
+          lits (raws.map toRT) c t src (ip + 3) ent bsm cap pt tv (by omega) hbsm
           (by intro q hq; obtain ⟨q2, hq2, rfl⟩ := List.mem_map.1 hq; exact toff q2 hq2)
-          (by rw [hre]; exact hrp) tlit tcodes hbody tsz (by omega)
-        generalize hB : serializeBlockBody c lits t (SeqRT.storeAll (repOf ent.rep) (raws.map toRT)).1 = body at *
+          (by rw [hre]; exact hrp) hem tlit trp ttab tcodes hbody tsz (by omega)
+        generalize hB : serializeBlockBody c lits t (SeqRT.storeAll (repOf ent.rep) (raws.map toRT)).1 (pt.getD {}) = body at *
         rw [ext_step] at hdec
         have hgrow : (out0 ++ x.extract 0 (pos + parseLen lits raws)).size - (out0 ++ x.extract 0 pos).size ≤ bsm := by
           rw [hos, ByteArray.size_append, ByteArray.size_extract]; omega
@@ -857,7 +1083,7 @@ theorem blocks_loop2 (src dc x out0 : ByteArray) (cap bsm r : Nat) (f : Nat → 
           have hr := hh.right
           simp only [ByteArray.size_append, blockHeader24_size] at hr
           obtain ⟨bl, ent3, hb1, hb2⟩ := ih l2 (pos + parseLen lits raws) (ip + (3 + body.size)) (rem - 3 - body.size) _ ent2
-            (blocks.push bt) _ rfl (by simp) hl2 t3 hrep2 (by rw [← hrep2]; exact hpos2) hr (by omega)
+            (blocks.push bt) _ _ rfl (by simp) hl2 t3 hrep2 (by rw [← hrep2]; exact hpos2) hem2 hr (by omega)
           refine ⟨bl, ent3, hb1, ?_⟩
           rw [forIn_cons_yield _ _ _ _ _ hf]
           rw [show ip + 3 + body.size = ip + (3 + body.size) by omega, hb2, Nat.add_assoc]
@@ -902,7 +1128,9 @@ theorem effBlocks2_ne (bs : List BlockChoice2) : effBlocks2 bs ≠ [] := by
 
 /-- **one serialized frame with compressed blocks inside any input**: `Frame.decompressFrame` (ZSTD_decompressFrame) started at the
 frame appends exactly the content and consumes exactly the frame.  `dict` may carry content (the parses are valid over it) but its
-repeat-offset history must be the start value the encoder uses (`repStartValue`), as it is without a dictionary. -/
+repeat-offset history must be the start value the encoder uses (`repStartValue`), as it is without a dictionary; its sequence tables
+are never asked for, because the block list starts with `prev = none`: `set_repeat` is only written after a compressed block with
+sequences of this frame (`Tiles2`). -/
 theorem decompressFrame_serialized2 (a : HArgs) (ha : a.wf) (hnd : a.noDictID = true ∨ a.dictID = 0)
     (bs : List BlockChoice2) (x : ByteArray) (hfcs : a.contentSizeFlag = true → a.pledged = x.size) (dict : Frame.Dict)
     (hrep0 : repOf dict.ent.rep = repStart)
@@ -942,8 +1170,8 @@ theorem decompressFrame_serialized2 (a : HArgs) (ha : a.wf) (hnd : a.noDictID = 
       L = .ok (ip0 + H + S, C + r, out0 ++ x, ent2, bl, none) := by
     rw [← hloop, Std.Legacy.Range.forIn_eq_forIn_range', ← hSn]
     refine blocks_loop2 src dict.content x out0 cap hd.blockSizeMax (C + r) _ hbsm ?raw ?rle ?cmp hcap bs2 _ 0 (ip0 + H) _ out0 dict.ent #[]
-      repStart (by rw [ByteArray.extract_same, ByteArray.append_empty]) hne ?len (by rw [gbsm]; exact htl) hrep0 ⟨by decide, by decide, by decide⟩
-      (by rw [← hHn, ← size_ofList]; exact hsrc.right.left) (by omega)
+      repStart none (by rw [ByteArray.extract_same, ByteArray.append_empty]) hne ?len (by rw [gbsm]; exact htl) hrep0 ⟨by decide, by decide, by decide⟩
+      trivial (by rw [← hHn, ← size_ofList]; exact hsrc.right.left) (by omega)
     case len => simp only [List.length_range', Std.Legacy.Range.size]; omega
     case raw =>
       intro i ip rem out ent blocks last n data hh hds h1 h2 h3 h4
@@ -1046,18 +1274,22 @@ theorem forIn_two {β : Type} (l : List Nat) (hl : 2 ≤ l.length) (f : Nat → 
   | i :: j :: rest, _ => rw [forIn_cons_yield _ _ _ _ _ (h1 i), forIn_cons_done _ _ _ _ _ (h2 j)]
 
 /-- hypotheses on one frame with compressed blocks: accepted header arguments, no dictionary ID, magic number present, truthful
-content size, and the blocks tile the content with valid parses (`Tiles2`) under the decoder's block-size limit min(Window_Size, 128 KiB) -/
+content size, and the blocks tile the content with valid parses (`Tiles2`) under the decoder's block-size limit min(Window_Size, 128 KiB).
+The tiling starts with the repeat-offset start value and with NO previous sequence tables (`prev = none`): the first block with sequences
+cannot use `set_repeat`.  (ZSTD_compress_usingDict may repeat a dictionary's tables there; that choice is not offered to the writer - a
+sound restriction, every frame the writer does produce is covered.) -/
 def FrameOK2 (dc : ByteArray) (a : HArgs) (bs : List BlockChoice2) (x : ByteArray) : Prop :=
   a.wf ∧ (a.noDictID = true ∨ a.dictID = 0) ∧ a.magicless = false ∧ (a.contentSizeFlag = true → a.pledged = x.size) ∧
     Tiles2 dc (FrameRT.blockSizeMaxOf a) x bs 0 repStart
 
 /-- **frame_roundtrip_compressed** (C01, whole frames).  For every input `x`, every accepted header-argument tuple, and EVERY list of block
 decisions that tiles `x` - raw blocks, RLE blocks, and compressed blocks carrying ANY valid parse of their stretch (literals raw / RLE /
-Huffman-direct, sequence tables predefined / RLE) - ZSTD_decompress (`Frame.decompressAll`) maps the serialized frame
+Huffman-direct; each sequence table predefined / RLE / described by FSE_writeNCount with ANY acceptable normalised distribution
+(`TableOK`) / repeated from the previous compressed block with sequences) - ZSTD_decompress (`Frame.decompressAll`) maps the serialized frame
 (`serializeFrame2`: ZSTD_writeFrameHeader, per block ZSTD_noCompressBlock / ZSTD_rleCompressBlock / block header +
 ZSTD_entropyCompressSeqStore_internal, ZSTD_writeEpilogue) back to `x`, for every destination capacity that can hold `x`.  The decoder may
 have a dictionary loaded whose content the parses refer to, provided its repeat-offset history is the start value (as with no dictionary).
-Not covered: FSE-described (`set_compressed`) and repeated (`set_repeat`) sequence tables, FSE-compressed Huffman tree descriptions,
+Not covered: `set_repeat` of a dictionary's sequence tables in the first block with sequences, FSE-compressed Huffman tree descriptions,
 treeless literals. -/
 theorem frame_roundtrip_compressed (a : HArgs) (bs : List BlockChoice2) (x : ByteArray) (dict : Frame.Dict)
     (hok : FrameOK2 dict.content a bs x) (hrep0 : repOf dict.ent.rep = repStart)
@@ -1145,7 +1377,7 @@ theorem demo_ok (ck : Bool) : FrameOK2 ByteArray.empty (demoArgs ck) demoBlocks 
   refine ⟨by cases ck <;> (unfold HArgs.wf; decide), Or.inr rfl, rfl, fun _ => rfl, ?_⟩
   have hb : FrameRT.blockSizeMaxOf (demoArgs ck) = 17 := by cases ck <;> decide
   rw [hb]
-  simp only [demoBlocks, Tiles2, LitOK, CodesOK, okOf]
+  simp only [demoBlocks, Tiles2, LitOK]
   decide +kernel
 
 example : ∃ tr, Frame.decompressAll (serializeFrame2 (demoArgs true) demoBlocks demoX) {} 17 {} = .ok (demoX, tr) :=
@@ -1155,4 +1387,36 @@ def demoBytes : ByteArray := ofList [0x28, 0xb5, 0x2f, 0xfd, 0x20, 0x11, 0x20, 0
       0x02, 0x00, 0x00, 0x88, 0x06, 0x87, 0x05]
 example : (match Frame.decompressAll demoBytes {} 17 {} with
     | .ok (y, _) => some y.data | .error _ => none) = some demoX.data := by decide +kernel
+
+/-! ### non-vacuity, `set_compressed` and `set_repeat`: the frame above followed by a third block.  Block 2 now DESCRIBES its three tables
+(FSE_writeNCount of the distributions LL {1: 16, 2: 16}, OF {0: 16, 2: 16}, ML {0: 16, 3: 16}, tableLog 5), block 3 REPEATS them
+(modes byte 0xfc, no description) for "pqpqpqpq" "r" "qrq" "?".  The real `zstd -d` (v1.5.7) regenerates the 30 input bytes from the
+48 bytes below. -/
+
+def demoFse : Tables := { ll := .fse #[0, 16, 16] 5, of := .fse #[16, 0, 16] 5, ml := .fse #[16, 0, 0, 16] 5 }
+def demoRep : Tables := { ll := .repeat, of := .repeat, ml := .repeat }
+def demoX2 : ByteArray := ofList [0x61, 0x62, 0x63, 0x64, 0x78, 0x79, 0x78, 0x79, 0x78, 0x79, 0x78, 0x79, 0x7a, 0x79, 0x7a, 0x79, 0x21,
+  0x70, 0x71, 0x70, 0x71, 0x70, 0x71, 0x70, 0x71, 0x72, 0x71, 0x72, 0x71, 0x3f]
+def demoLits2 : ByteArray := ofList [0x70, 0x71, 0x72, 0x3f]
+def demoBlocks2 : List BlockChoice2 :=
+  [.raw 4, .compressed .raw demoFse demoLits demoRaws, .compressed .raw demoRep demoLits2 demoRaws]
+def demoArgs2 : HArgs := ⟨10, 30, true, 0, false, false, false⟩
+
+example : TablesOK demoFse := by decide +kernel
+
+example : (serializeFrame2 demoArgs2 demoBlocks2 demoX2).data =
+    #[0x28, 0xb5, 0x2f, 0xfd, 0x20, 0x1e, 0x20, 0x00, 0x00, 0x61, 0x62, 0x63, 0x64, 0x9c, 0x00, 0x00, 0x20, 0x78, 0x79, 0x7a, 0x21,
+      0x02, 0xa8, 0x10, 0x88, 0x1f, 0x10, 0x83, 0x0f, 0x10, 0xa3, 0x0f, 0x68, 0x8c, 0x11, 0x55, 0x00, 0x00, 0x20, 0x70, 0x71, 0x72, 0x3f,
+      0x02, 0xfc, 0x18, 0x60, 0x04] := by decide +kernel
+
+theorem demo2_ok : FrameOK2 ByteArray.empty demoArgs2 demoBlocks2 demoX2 := by
+  refine ⟨by unfold HArgs.wf; decide, Or.inr rfl, rfl, fun _ => rfl, ?_⟩
+  have hb : FrameRT.blockSizeMaxOf demoArgs2 = 30 := by decide
+  rw [hb]
+  simp only [demoBlocks2, Tiles2, LitOK]
+  decide +kernel
+
+example : ∃ tr, Frame.decompressAll (serializeFrame2 demoArgs2 demoBlocks2 demoX2) {} 30 {} = .ok (demoX2, tr) :=
+  frame_roundtrip_compressed _ _ _ {} demo2_ok rfl 30 (by decide) {} rfl rfl
+
 end ZstdVerif.BlockRT
